@@ -16,6 +16,7 @@ OBLIGATIONS = [
     (P + "failed_parse_leaves_target", "value::load returns false => the target is unchanged; returns true => target = parsed tree"),
     (P + "write_parse_roundtrip_partial", "NoUndefined, StringsUtf8, NumsFinite, sorted unique keys, depth <= 512, NumLaw => parse (save mode v) = mapNum rt v, both modes"),
     (P + "write_parse_roundtrip_second", "under NumIdem the second round is exact: parse (save mode (mapNum rt v)) = mapNum rt v"),
+    (P + "save_locale_independent", "for every stream locale (decimal point, thousands separator, grouping) value::write produces the classic-locale text: the source imbues C unconditionally (regenerated)"),
     (P + "roundtrip_counterexample_nonfinite", "known finding: a number member holding inf is written as `inf`, which does not parse"),
     (P + "roundtrip_counterexample_invalid_utf8", "known finding: a string member holding the byte FF is written raw and rejected by the parser"),
     (P + "roundtrip_counterexample_dbl_max", "known finding (found by this check): DBL_MAX is written as 1.797693134862316e+308, which overflows on parse"),
@@ -559,6 +560,23 @@ def gen_cases(c, scale):
                 continue            # the list-based model writer is cubic in the depth for the readable form
             write.append(f"write {m} " + "a 1 " * n + "n")
             write.append(f"write {m} " + "o 1 6b " * n + "d 3ff0000000000000")
+    # numbers whose integer part has 4..17 digits (digit grouping of a stream locale would show): alone,
+    # in arrays and objects, both forms; the harness writes every tree under seven numpunct locales
+    locnums = []
+    for k in range(3, 17):
+        for x in (10.0**k, 10.0**k + 1, 10.0**k - 1, -(10.0**k), 10.0**k + 0.5, 1.2345678901234567 * 10.0**k, -9.87654321 * 10.0**k):
+            locnums.append(x)
+    locnums += [1234567.0, 1000.0, -98765432.5, 12.25, 999.0, 999.5, 1234.5, 123456.789, 9007199254740993.0, 4294967296.0, 2147483647.0]
+    for _ in range(60 * scale):
+        locnums.append(float(rng.randrange(1000, 10**rng.randrange(4, 17))) * rng.choice((1, -1)))
+        locnums.append(rng.uniform(1e3, 10.0**rng.randrange(4, 16)))
+    for x in locnums:
+        write.append(f"write {rng.choice('01')} d {bits(x):016x}")
+    for m in "01":
+        for i in range(0, len(locnums), 5):
+            grp = locnums[i:i + 5]
+            write.append(f"write {m} a {len(grp)} " + " ".join(f"d {bits(x):016x}" for x in grp))
+            write.append(f"write {m} o 2 626967 d {bits(grp[0]):016x} 6c697374 a {len(grp)} " + " ".join(f"d {bits(x):016x}" for x in grp))
     for _ in range(1500 * scale):     # NumLaw / NumIdem on the real library: single numbers across the double range
         write.append(f"write 0 d {rand_double_bits(rng):016x}")
     for b in range(256):
@@ -609,8 +627,9 @@ def main():
     c.rule = ("cases = protocol lines: `parse` (documents rendered from random trees with random whitespace/escape/number forms, nesting chains "
               "0..600 around the bound, superset quirks, malformed strings, single-byte mutations, large documents; both full and prefix mode; "
               "every case also goes through load(istream), a decimal-comma/grouping locale stream and operator>>), `load` (target preservation), "
-              "`write` (trees built through the API incl. undefined/non-finite/invalid-UTF-8 members, both modes, save()/save(ostream)/locale "
-              "ostream/operator<<, round trip on the real code), `num`/`fmt` (libstdc++ number extraction and printing against the model's "
+              "`write` (trees built through the API incl. undefined/non-finite/invalid-UTF-8 members and numbers with 4..17 integer digits, "
+              "both modes, save()/save(ostream)/operator<< under seven numpunct locales: decimal comma with/without grouping, decimal point "
+              "with grouping by comma, blank, apostrophe in groups 3, 2-3, 3-2; round trip on the real code), `num`/`fmt` (libstdc++ number extraction and printing against the model's "
               "automaton and exact binary64 arithmetic), `get` (integer extraction grid).  non-trivial = model output is not fail/throw "
               "(the case went through the whole pipeline); distinct = distinct case lines")
     c.trusted += [
